@@ -1170,7 +1170,12 @@ def r13f(P, R):
         R.holds("R13-f", "resolver-index", "no document is left out of a resolver's index because of what it defines (%d functions)" % len(scope))
     # (2) a binary search over the names of an import presupposes that every Import is constructed with a sorted list
     if A is None:
-        R.undecided("R13-f", "name-search", "the import traversal is not located on this shape of the code; how it looks names up is not decided")
+        reach = [P.fns[p] for p in P.reachable([entry]) if p.startswith(SEM)]
+        if any(x.get("k") == "MethodCall" and x["method"].startswith("binary_search") and "base::Ident" in norm(x.get("recv_ty") or "")
+               for g in reach for x in g.walk()):
+            R.undecided("R13-f", "name-search", "the import traversal is not located on this shape of the code; its binary search over names is not decided")
+        else:
+            R.holds("R13-f", "name-search", "requested names are looked up by a scan / hash lookup (no order presupposed)", loc=entry.loc())
         return
     T, pv = A.T, A.pv
     searches = [x for x in T.walk() if x.get("k") == "MethodCall" and x["method"].startswith("binary_search")
